@@ -76,22 +76,30 @@ class CorruptCtx(core.Ctx):
         clean = [c for c in cases if c["id"] not in bad_ids and c["id"] not in self.skipped_cases and c["events"]]
         self.rng.shuffle(clean)
         variants = []
-        for c in clean[:8]:
+        for c in clean[:6]:
             lv = [(p, v) for p, v in leaves(c["events"]) if corrupt_value(v, self.rng) is not None]
             self.rng.shuffle(lv)
-            for k, (p, v) in enumerate(lv[:5]):
+            for k, (p, v) in enumerate(lv[:4]):
                 cc = copy.deepcopy(c)
                 setp(cc["events"], p, corrupt_value(v, self.rng))
                 cc["id"] = "%s#corrupt%d" % (c["id"], k)
                 variants.append((cc, p))
-        for cc, p in variants:
+        if variants:
+            # all corrupted copies are judged in one go (a batch TLC cannot evaluate is split by judge itself)
             sub = core.Ctx(self.prop, self.tier, self.seed)
             try:
-                got = core.Ctx.judge(sub, module, cfg, [cc], family, driver, exec_fn, batch_events, env)
-                skipped = bool(sub.skipped_cases) or sub.events_skipped > 0
-                self.tried.append((family, p, bool(got), "mismatch" if got else ("skipped by precondition" if skipped else "accepted")))
-            except MachineryError:
-                self.tried.append((family, p, True, "evaluation error"))      # the corrupted trace is not even well-formed for the spec
+                got = core.Ctx.judge(sub, module, cfg, [cc for cc, _ in variants], family, driver, exec_fn, batch_events, env)
+                rejected = {m["case"]["id"]: m for m in got}
+                skipped = set(sub.skipped_cases)
+                for cc, p in variants:
+                    if cc["id"] in rejected:
+                        how = "evaluation error" if rejected[cc["id"]]["key"].startswith("trace/") else "mismatch"
+                        self.tried.append((family, p, True, how))
+                    else:
+                        self.tried.append((family, p, False, "skipped by precondition" if cc["id"] in skipped else "accepted"))
+            except MachineryError as ex:
+                for cc, p in variants:
+                    self.tried.append((family, p, True, "evaluation error (whole batch)"))
         return found
 
 
